@@ -301,6 +301,11 @@ class Template(Node):
                 existing.showkey = showkey
             if not existing.showkey:
                 if self._has_unescapable_equals(value):
+                    # Later positional parameters move up when this name is
+                    # written out, so theirs have to be written out as well:
+                    for i, param in enumerate(self.params):
+                        if param is existing:
+                            self._fix_dependendent_params(i)
                     existing.showkey = True
                 else:
                     self._surface_escape(value, "=")
